@@ -34,12 +34,11 @@ package gcrypto
 //@ define ProofInv(p) = forall i mathint :: {pbits(p)[i]} pbits(p)[i] ==> 0 <= i && i < len(pkeys(p)) && Signed(pkeys(p)[i], pmsg(p))
 
 //@ iface CommonMessageSignatureProof.AddSignature(p, sig, key)
-//@   requires ProofInv(p)
 //@   ensures ok-means-verified: result == nil ==> Vf(key, pmsg(p), bytes(sig))
 //@   ensures ok-sets-the-keys-bit: result == nil ==> (exists i mathint :: 0 <= i && i < len(pkeys(p)) && keybytes(pkeys(p)[i]) == keybytes(key) &&
 //@       (forall j mathint :: pbits(p)[j] == (old(pbits(p))[j] || j == i)))
 //@   ensures failure-changes-nothing: result != nil ==> pbits(p) == old(pbits(p))
-//@   ensures proof-inv-kept: ProofInv(p)
+//@   ensures proof-inv-kept: old(ProofInv(p)) ==> ProofInv(p)
 //@   modifies pbits(p)
 
 //@ iface CommonMessageSignatureProof.SignatureBitSet(p, dst)
@@ -197,9 +196,36 @@ package gcrypto
 //@       visited(2)[h1] && visited(2)[h2] && h1 != h2 ==> !(bsbits(mapvals(out)[h1])[i] && bsbits(mapvals(out)[h2])[i])
 //@   loop 2 invariant visited-in-out: forall h string :: {visited(2)[h]} visited(2)[h] ==> (h in out)
 
-// Merge takes verified signatures from another proof over the same message and keys.
+// Merge takes verified signatures from another proof: bits are only added, every added bit is re-verified (the proof
+// invariant is kept whatever the other proof holds), and a result that reports no increase left the proof unchanged.
 //@ iface CommonMessageSignatureProof.Merge(p, other)
 //@   ensures monotone: forall j mathint :: {pbits(p)[j]} old(pbits(p))[j] ==> pbits(p)[j]
-//@   ensures only-from-other: forall j mathint :: {pbits(p)[j]} pbits(p)[j] ==> old(pbits(p))[j] || pbits(other)[j]
-//@   ensures increased-flag: result.IncreasedSignatures == !(pbits(p) == old(pbits(p)))
+//@   ensures proof-inv-kept: old(ProofInv(p)) ==> ProofInv(p)
+//@   ensures not-increased-means-unchanged: !result.IncreasedSignatures ==> pbits(p) == old(pbits(p))
 //@   modifies pbits(p)
+
+// ---- Merge of two Simple proofs (C13, C05): only verified signatures are taken over ----
+// Whatever the other proof holds, every signature is re-verified through AddSignature before its bit is set, so the
+// proof invariant survives a merge with an arbitrary (even ill-formed) other proof over the same message and keys.
+//@ func SimpleCommonMessageSignatureProof.Matches
+//@   property C13
+//@   requires istype(other, SimpleCommonMessageSignatureProof)
+//@   ensures same-message-and-key-hash: result ==> bytes(p.msg) == bytes(unbox(other, SimpleCommonMessageSignatureProof).msg) &&
+//@       p.keyHash == unbox(other, SimpleCommonMessageSignatureProof).keyHash && len(p.keys) == len(unbox(other, SimpleCommonMessageSignatureProof).keys)
+//@   modifies nothing
+
+//@ func SimpleCommonMessageSignatureProof.Merge
+//@   property C13 C05
+//@   option implements CommonMessageSignatureProof.Merge
+//@   requires SInv(p) && SCoupling(self, p) && istype(other, SimpleCommonMessageSignatureProof)
+//@   represents pbits(self) == bsbits(p.bitset)
+//@   requires unbox(other, SimpleCommonMessageSignatureProof).bitset != nil && unbox(other, SimpleCommonMessageSignatureProof).bitset != p.bitset
+//@   requires forall s string :: {rawdom(unbox(other, SimpleCommonMessageSignatureProof).sigs)[s]} (s in unbox(other, SimpleCommonMessageSignatureProof).sigs) ==> unbox(other, SimpleCommonMessageSignatureProof).sigs[s] != nil
+//@   ensures sinv-kept: SInv(p)
+//@   ensures superset-flag-needs-all-valid: result.WasStrictSuperset ==> result.AllValidSignatures
+//@   modifies p.sigs[*], bsbits(p.bitset)
+//@   loop 1 invariant sinv: SInv(p)
+//@   loop 1 invariant cinv: old(CInv(p)) ==> CInv(p)
+//@   loop 1 invariant mono: forall j mathint :: {bsbits(p.bitset)[j]} old(bsbits(p.bitset))[j] ==> bsbits(p.bitset)[j]
+//@   loop 1 invariant unchanged-until-increased: !res.IncreasedSignatures ==> bsbits(p.bitset) == old(bsbits(p.bitset))
+//@   loop 1 invariant coupling: pbits(self) == bsbits(p.bitset)
